@@ -107,13 +107,14 @@ YScan2(y, up, imag, k, fuel) ==
            nxt == IF up THEN FqAdd(y, One) ELSE FqSub(y, One)
        IN IF c[1] THEN << <<c[2], yy>> >> \o YScan2(nxt, up, imag, k - 1, fuel - 1) ELSE YScan2(nxt, up, imag, k, fuel - 1)
 
-BoundaryPts1 == YScan1(HalfQ, FALSE, 2, 40) \o YScan1(FqAdd(HalfQ, One), TRUE, 2, 40)
-                \o YScan1(<<3>>, TRUE, 1, 40) \o YScan1(FqNeg(<<3>>), FALSE, 1, 40)
-BoundaryPts2 == YScan2(HalfQ, FALSE, FALSE, 1, 40) \o YScan2(FqAdd(HalfQ, One), TRUE, FALSE, 1, 40)
-                \o YScan2(<<3>>, TRUE, FALSE, 1, 40) \o YScan2(FqNeg(<<3>>), FALSE, FALSE, 1, 40)
-                \o YScan2(<<5>>, TRUE, TRUE, 1, 40) \o YScan2(FqNeg(<<5>>), FALSE, TRUE, 1, 40)
-ASSUME Len(BoundaryPts1) = 6 /\ \A i \in 1..6 : E1!OnCurve(BoundaryPts1[i])
-ASSUME Len(BoundaryPts2) = 6 /\ \A i \in 1..6 : E2!OnCurve(BoundaryPts2[i])
+BoundaryPts1 == YScan1(HalfQ, FALSE, 3, 60) \o YScan1(FqAdd(HalfQ, One), TRUE, 3, 60)
+                \o YScan1(<<3>>, TRUE, 2, 60) \o YScan1(FqNeg(<<3>>), FALSE, 2, 60)
+(* several ordinates per class: which root a decompressor's square root happens to return varies *)
+BoundaryPts2 == YScan2(HalfQ, FALSE, FALSE, 3, 60) \o YScan2(FqAdd(HalfQ, One), TRUE, FALSE, 3, 60)
+                \o YScan2(<<3>>, TRUE, FALSE, 4, 60) \o YScan2(FqNeg(<<3>>), FALSE, FALSE, 4, 60)
+                \o YScan2(<<5>>, TRUE, TRUE, 2, 60) \o YScan2(FqNeg(<<5>>), FALSE, TRUE, 2, 60)
+ASSUME Len(BoundaryPts1) = 10 /\ \A i \in 1..10 : E1!OnCurve(BoundaryPts1[i])
+ASSUME Len(BoundaryPts2) = 18 /\ \A i \in 1..18 : E2!OnCurve(BoundaryPts2[i])
 
 AffRecOf(g, P) == IF Len(P) = 0 THEN (IF g = "G1" THEN <<Zero, One, TRUE>> ELSE <<F2Zero, F2One, TRUE>>)
                   ELSE <<P[1], P[2], FALSE>>
@@ -144,7 +145,8 @@ Script(g) ==
      \o FlattenSeq([i \in 1..Len(mx) |-> CurveOps(g, mx[i], "torsion-mixed")])
      \o FlattenSeq([i \in 1..Len(iv) |-> DecOps(g, iv[i], "invalid-curve-order-r")])
      \o FlattenSeq([i \in 1..Len(nr) |-> XOnlyOps(g, nr[i], "abscissa-without-point")])
-     \o FlattenSeq([i \in 1..Len(bp) |-> CurveOps(g, bp[i], "ordinate-at-sort-boundary")])
+     \o FlattenSeq([i \in 1..Len(bp) |-> DecOps(g, bp[i], "ordinate-at-sort-boundary")
+                                         \o << [op |-> "encode", g |-> g, p |-> AffRecOf(g, bp[i]), cls |-> "ordinate-at-sort-boundary"] >>])
 
 RECURSIVE WriteChunks(_,_,_,_)
 WriteChunks(name, s, n, k) ==
